@@ -6,6 +6,11 @@ BASELINE = json.load(open('/root/.vp/BASELINE.json'))
 
 CHECKS = {
  # id: (level, engine, technique, level text, level note, design ref)
+ "C01": ("fault_enumeration", "chain+world",
+         "ledger reference-model monitor over ABCI histories of the real app + k-th-call fault enumeration on forked states through proxies installed by the verif hook",
+         "Seeded hostile histories of the real application (send/cancel/batch build/estimates/confirms/time-outs/executed-batch and deposit attestations, tax changes, a chain without eligible relayer) are executed through ABCI; at every block boundary a ledger keyed by transfer id is compared with pool, batches, escrow balance and supply. At sampled boundaries every bridge step is re-run on throw-away forks with exactly the k-th collaborator call failed, for every k, checking byte-identical skyway+bank stores after a reported failure and the ledger invariants after every step. Held = held on those histories and fault points.",
+         "Faults are errors at the hooked bank/EVM keeper interface calls; oracle voting taken from the chain (C02); tax arithmetic (C15) and crash atomicity below ABCI out of scope.",
+         "DESIGN.md §2 C01"),
  "C19": ("exploration", "pure",
          "reference-model monitor over insert/remove/select histories of the real mempool (bounded-exhaustive + seeded random)",
          "Every history of <=5 (quick) / <=6 (thorough) operations over a 2-sender x 2-sequence x 5-class alphabet plus seeded random histories over up to 8 senders is executed against the real DefaultPriorityMempool; after every operation a map-based reference model checks count, exactly-once, per-sender nonce order and the class-priority rule. Held = held on those histories.",
